@@ -40,6 +40,7 @@ from fortls.helper_functions import (
     only_dirs,
     resolve_globs,
     set_keyword_ordering,
+    strip_strings,
 )
 from fortls.json_templates import change_json, symbol_json, uri_json
 from fortls.jsonrpc import JSONRPC2Connection, path_from_uri, path_to_uri
@@ -842,12 +843,15 @@ class LangServer:
 
     def serve_signature(self, request: dict):
         def get_sub_name(line: str):
-            _, sections = get_paren_level(line)
+            # The argument list at the level of the cursor: the arguments of calls
+            # nested in earlier arguments (and their commas) are left out
+            arg_string, sections = get_paren_level(line)
             if sections[0].start <= 1:
                 return None, None, None
-            arg_string = line[sections[0].start : sections[-1].end]
             sub_string, sections = get_paren_level(line[: sections[0].start - 1])
-            return sub_string.strip(), arg_string.split(","), sections[-1].start
+            # (commas inside character literals do not separate arguments)
+            arg_strings = strip_strings(arg_string, maintain_len=True).split(",")
+            return sub_string.strip(), arg_strings, sections[-1].start
 
         def check_optional(arg, params: dict):
             opt_split = arg.split("=")
